@@ -58,7 +58,57 @@ func c13LockSkeleton(rel, recv, name string, extra ...string) string {
 	return strings.Join(items, " ; ")
 }
 
+// c13LoopExits counts the statements that leave a for / range loop of a function early: return, goto, and
+// break that is not the break of a switch / select nested in the loop.  Function literals are not entered.
+func c13LoopExits(rel, recv, name string) int {
+	_, fd := funcDecl(rel, recv, name)
+	if fd == nil {
+		return 999
+	}
+	n := 0
+	var walk func(node ast.Node, inLoop, inSwitch bool)
+	walk = func(node ast.Node, inLoop, inSwitch bool) {
+		ast.Inspect(node, func(x ast.Node) bool {
+			if x == nil || x == node {
+				return true
+			}
+			switch y := x.(type) {
+			case *ast.FuncLit:
+				return false
+			case *ast.ForStmt:
+				walk(y.Body, true, false)
+				return false
+			case *ast.RangeStmt:
+				walk(y.Body, true, false)
+				return false
+			case *ast.SwitchStmt:
+				walk(y.Body, inLoop, true)
+				return false
+			case *ast.TypeSwitchStmt:
+				walk(y.Body, inLoop, true)
+				return false
+			case *ast.SelectStmt:
+				walk(y.Body, inLoop, true)
+				return false
+			case *ast.ReturnStmt:
+				if inLoop {
+					n++
+				}
+			case *ast.BranchStmt:
+				if inLoop && (y.Tok == token.GOTO || (y.Tok == token.BREAK && (!inSwitch || y.Label != nil))) {
+					n++
+				}
+			}
+			return true
+		})
+	}
+	walk(fd.Body, false, false)
+	return n
+}
+
 func factsC13() {
+	// UpdateSignal visits every entry of its snapshot whatever a send returns (SignalsRaw.emit_go)
+	emitNat("f_sig_UpdateSignal_loop_exits", c13LoopExits("bus/signal.go", "signalHandler", "UpdateSignal"))
 	emitStr("f_sig_addSignalUser", c13LockSkeleton("bus/signal.go", "signalHandler", "addSignalUser", "MakeHandler", "RemoveHandler"))
 	emitStr("f_sig_removeSignalUser", c13LockSkeleton("bus/signal.go", "signalHandler", "removeSignalUser", "RemoveHandler"))
 	emitStr("f_sig_UpdateSignal", c13LockSkeleton("bus/signal.go", "signalHandler", "UpdateSignal", "replyEvent", "removeSignalUser"))
